@@ -26,6 +26,7 @@ type xaObj struct {
 	argc  int
 	table int
 	node  *xaNode
+	reloc bool // declared with a prefix or path: the parser moves it to the end of its scope
 }
 
 type xaNode struct {
@@ -133,8 +134,11 @@ func (g *xaGen) declForm(cur []string, inObj bool) (*xaForm, []string) {
 	}
 }
 
-func (g *xaGen) add(kind string, path []string, argc int, nd *xaNode) *xaObj {
+func (g *xaGen) add(kind string, path []string, argc int, nd *xaNode, f ...*xaForm) *xaObj {
 	o := &xaObj{path: path, kind: kind, argc: argc, table: g.table, node: nd}
+	if len(f) > 0 && (f[0].Abs || f[0].Carets > 0 || len(f[0].Segs) > 1) {
+		o.reloc = true
+	}
 	g.objs = append(g.objs, o)
 	return o
 }
@@ -167,7 +171,7 @@ func (g *xaGen) constTerm() xaTerm {
 }
 
 func (g *xaGen) bytes(max int) []int {
-	bs := make([]int, g.rng.Intn(max+1))
+	bs := make([]int, 1+g.rng.Intn(max)) // never empty: an empty initializer inside a deferred block is a documented deviation
 	for i := range bs {
 		bs[i] = g.rng.Intn(256)
 	}
@@ -244,7 +248,7 @@ func (g *xaGen) level(cur []string, inObj bool, depth int, n int) []*xaNode {
 		case k < 10 && depth < 3: // Device
 			f, p := g.declForm(cur, inObj)
 			nd := &xaNode{tok: xaTok{K: "open", Kind: "Device", F: f, W: g.width()}, blk: true}
-			g.add("Device", p, 0, nd)
+			g.add("Device", p, 0, nd, f)
 			nd.kids = g.level(p, true, depth+1, 1+g.rng.Intn(6))
 			out = append(out, nd)
 		case k < 16 && depth < 3: // Scope directive to a predefined scope or a device, written so that it can be merged at once
@@ -265,13 +269,13 @@ func (g *xaGen) level(cur []string, inObj bool, depth int, n int) []*xaNode {
 			f, p := g.declForm(cur, inObj)
 			argc := g.rng.Intn(4)
 			nd := &xaNode{tok: xaTok{K: "method", F: f, W: g.width(), Flags: argc | g.rng.Intn(2)<<3 | g.rng.Intn(16)<<4}, blk: true}
-			g.add("Method", p, argc, nd)
+			g.add("Method", p, argc, nd, f)
 			out = append(out, nd)
 		case k < 42: // Name
 			f, p := g.declForm(cur, inObj)
 			inPlace := !f.Abs && f.Carets == 0
 			out = append(out, &xaNode{tok: xaTok{K: "decl", Kind: "Name", F: f, Args: []xaTerm{g.value(cur, 0, inPlace)}}})
-			g.add("Name", p, 0, nil)
+			g.add("Name", p, 0, nil, f)
 		case k < 52: // OpRegion / DataRegion
 			f, p := g.declForm(cur, inObj)
 			if g.rng.Intn(3) == 0 {
@@ -330,7 +334,7 @@ func (g *xaGen) level(cur []string, inObj bool, depth int, n int) []*xaNode {
 				}
 			}
 		case k < 80: // Alias: the source name is written so that the Alias node lands beside its source
-			if _, fs := g.pick(cur, "Name Method Device Unit Mutex", g.table, true); fs != nil {
+			if o, fs := g.pick(cur, "Name Method Device Unit Mutex", g.table, true); fs != nil && !(o.reloc && o.table == g.table) && (o.kind != "Device" || !fs.Abs) {
 				f, _ := g.declForm(cur, inObj)
 				out = append(out, &xaNode{tok: xaTok{K: "alias", G: fs, F: f}})
 			}
@@ -351,7 +355,7 @@ func (g *xaGen) level(cur []string, inObj bool, depth int, n int) []*xaNode {
 		case k < 96:
 			f, p := g.declForm(cur, inObj)
 			out = append(out, &xaNode{tok: xaTok{K: "decl", Kind: "Mutex", F: f, Args: []xaTerm{{T: "byte", N: []int{g.rng.Intn(16)}}}}})
-			g.add("Mutex", p, 0, nil)
+			g.add("Mutex", p, 0, nil, f)
 		default:
 			f, p := g.declForm(cur, inObj)
 			out = append(out, &xaNode{tok: xaTok{K: "decl", Kind: "Event", F: f}})
@@ -700,6 +704,9 @@ func xaRandomProgram(seed int64) []xaTok {
 	total := 30 + g.rng.Intn(170)
 	if g.rng.Intn(6) == 0 {
 		total = 4 + g.rng.Intn(25)
+	}
+	if mx, _ := strconv.Atoi(os.Getenv("XA_SIZE")); mx > 0 { // smaller programs (development, quick tier)
+		total = 3 + g.rng.Intn(mx)
 	}
 	var tables [][]*xaNode
 	for g.table = 1; g.table <= ntab; g.table++ {
